@@ -70,6 +70,8 @@ def render(t, vp="V"):
     if k == "f":
         return repr(t["v"] / 4.0)
     if k == "a":
+        if t.get("fq"):          # the same atom written with (needless) quotes
+            return "'" + txt(t["c"]).replace("'", "''") + "'"
         return r_atom_text(t["c"])
     if k == "s":
         return '"%s"' % txt(t["c"])
@@ -83,6 +85,19 @@ def render(t, vp="V"):
             return "[" + ",".join(items) + "]"
         return "[" + ",".join(items) + "|" + render(t, vp) + "]"
     return "%s(%s)" % (r_atom_text(t["c"]), ",".join(render(x, vp) for x in t["a"]))
+
+
+def unquote(t):
+    """copy without the presentation flag 'fq' (for the judge: a quoted atom IS the atom)"""
+    if t["t"] == "a":
+        return {"t": "a", "c": t["c"]}
+    if t["t"] == "c":
+        return dict(t, a=[unquote(x) for x in t["a"]])
+    return t
+
+
+def has_forced_quote(t):
+    return bool(t.get("fq")) or (t["t"] == "c" and any(has_forced_quote(x) for x in t["a"]))
 
 
 def vars_of(t, acc=None):
